@@ -414,7 +414,7 @@ class DtsAccessor:
         """
         if not suppress_section_validation:
             validate_sections_definition(sections=sections)
-            validate_no_overlapping_sections(sections=sections)
+            validate_no_overlapping_sections(sections=sections, x=self.x)
 
         if temp_err or ref_temp_broadcasted:
             for k in sections:
